@@ -162,7 +162,7 @@ def gen_case(rnd: random.Random, libs=("np",), with_provider: float = 0.25, with
              optionals: float = 0.2, plain: float = 0.2) -> dict:
     while True:
         c = _gen_case(rnd, libs, with_provider, with_ret, tuples, optionals, plain)
-        if _elems(c) <= MAX_ELEMS:
+        if _elems(c) <= MAX_ELEMS and reference(c).get("v") != "unknown":
             return c
 
 
@@ -384,6 +384,8 @@ def perturb(rnd: random.Random, case: dict, where: str | None = None) -> tuple[d
     else:
         return None
     set_value(c, it["path"], v)
+    if reference(c).get("v") == "unknown":
+        return None   # a power beyond the resource bound under the new values: run nowhere (DESIGN 10)
     return c, f"{kind}@{it['name']}"
 
 
